@@ -51,7 +51,9 @@ theorem walkNext_ok (hc : CfgOK cfg) (k : Kind) {L : Layout} {hints : Hints} (hL
     ∀ (fuel i : Nat) (s : State), GeomInv cfg s → (∃ j, s.cur = .chunk j) →
     ∃ o s', walkNext cfg k L hints fuel i s = .ok (o, s') ∧ GeomInv cfg s' ∧ SameShape s s' ∧
       s'.minAlign = s.minAlign ∧ s'.resps = s.resps ∧ s'.reqs = s.reqs ∧ (∃ j, s'.cur = .chunk j) ∧
-      (∀ v s'', o = some (v, s'') → s'' = s') := by
+      (∀ v s'', o = some (v, s'') → s'' = s' ∧
+        ∃ sx j, GeomInv cfg sx ∧ SameShape s sx ∧ sx.minAlign = s.minAlign ∧ sx.cur = .chunk j ∧ i < j ∧
+          tryCurSpec cfg k sx L = some (v, s')) := by
   intro fuel
   induction fuel with
   | zero =>
@@ -68,13 +70,17 @@ theorem walkNext_ok (hc : CfgOK cfg) (k : Kind) {L : Layout} {hints : Hints} (hL
       cases ht : tryCurSpec cfg k { s with chunks := s.chunks.set (i+1) (c.resetPos cfg), cur := .chunk (i+1) } L with
       | none =>
         obtain ⟨o, s', e1, e2, e3, e4, e5, e6, e7, e8⟩ := ih (i+1) _ h1 ⟨i+1, rfl⟩
-        exact ⟨o, s', e1, e2, hs1.trans e3, e4, e5, e6, e7, e8⟩
+        refine ⟨o, s', e1, e2, hs1.trans e3, e4, e5, e6, e7, ?_⟩
+        intro v s'' hx
+        obtain ⟨f1, sx, j, f2, f3, f4, f5, f6, f7⟩ := e8 v s'' hx
+        exact ⟨f1, sx, j, f2, hs1.trans f3, f4, f5, by omega, f7⟩
       | some r =>
         obtain ⟨v, s2⟩ := r
         obtain ⟨g1, g2, g3, g4, g5, g6⟩ := tryCurSpec_inv hc h1 hL ht
         refine ⟨some (v, s2), s2, rfl, g1, hs1.trans g2, g4, g5, g6, ⟨i+1, g3⟩, ?_⟩
         intro v' s'' hx
-        cases hx; rfl
+        cases hx
+        exact ⟨rfl, _, i+1, h1, hs1, rfl, rfl, Nat.lt_succ_self i, ht⟩
 
 /-! ## the fresh chunk fits -/
 
@@ -147,24 +153,27 @@ theorem fresh_fits (hc : CfgOK cfg) {s1 : State} (h1 : GeomInv cfg s1) (hr : Res
       simp only [↓reduceIte, hy, Option.map_some]; exact ⟨_, _, rfl⟩
 
 /-- what `newChunk` followed by the retry leaves behind -/
-structure FreshPost (cfg : Cfg) (size : Nat) (s1 s3 : State) (r : Except AErr (Nat × Nat)) : Prop where
+structure FreshPost (cfg : Cfg) (k : Kind) (L : Layout) (size : Nat) (s1 s3 : State) (r : Except AErr (Nat × Nat)) : Prop where
   inv : GeomInv cfg s3
   resps : RespsOK cfg s3
   minAlign : s3.minAlign = s1.minAlign
   err : ∀ e, r = .error e → SameShape s1 s3 ∧ s3.cur = s1.cur
   ok : ∀ v, r = .ok v → s3.cur = .chunk s1.chunks.length ∧
-    ∃ c, s3.chunks.map Chunk.shape = s1.chunks.map Chunk.shape ++ [Chunk.shape c] ∧ size ≤ c.size
+    ∃ c, s3.chunks.map Chunk.shape = s1.chunks.map Chunk.shape ++ [Chunk.shape c] ∧ size ≤ c.size ∧
+      ∃ p g rest sx, s1.resps = .granted p g :: rest ∧ c.base = p ∧ c.size ≤ g ∧
+        GeomInv cfg sx ∧ sx.minAlign = s1.minAlign ∧ sx.cur = .chunk s1.chunks.length ∧
+        sx.chunks = s1.chunks ++ [c] ∧ tryCurSpec cfg k sx L = some (v, s3)
 
 theorem freshTry_newChunk (hc : CfgOK cfg) {s1 : State} (h1 : GeomInv cfg s1) (hr : RespsOK cfg s1) (k : Kind)
     {L : Layout} {hints : Hints} (hL : L.Valid) (hh : hints.sma = true → L.align ∣ L.size)
     (hk : k = .range → L.align ∣ L.size) {hint size : Nat}
     (hhint : Spec.hintFromCapacity cfg.up cfg.hdr L ≤ hint) (hs : Spec.calcSize cfg.up cfg.hdr hint = some size) :
-    (∀ s3 r, (newChunk cfg s1 size >>= freshTry cfg k L hints) = .ok (s3, r) → FreshPost cfg size s1 s3 r) ∧
+    (∀ s3 r, (newChunk cfg s1 size >>= freshTry cfg k L hints) = .ok (s3, r) → FreshPost cfg k L size s1 s3 r) ∧
     (HeadOK cfg s1 size → ∃ s3 r, (newChunk cfg s1 size >>= freshTry cfg k L hints) = .ok (s3, r)) := by
   obtain ⟨_, hsa, hsz, _, _⟩ := C12.calcSize_some hc.hdr hs
   rw [newChunk_eq hc hr]
   have key : ∀ s2 r2, newChunkSpec cfg s1 size = .ok (s2, r2) →
-      ∃ s3 r, freshTry cfg k L hints (s2, r2) = .ok (s3, r) ∧ FreshPost cfg size s1 s3 r := by
+      ∃ s3 r, freshTry cfg k L hints (s2, r2) = .ok (s3, r) ∧ FreshPost cfg k L size s1 s3 r := by
     intro s2 r2 he
     obtain ⟨g1, g2, g3, g4, g5, g6⟩ := newChunkSpec_ok hc h1 hr hsz he
     cases r2 with
@@ -183,8 +192,10 @@ theorem freshTry_newChunk (hc : CfgOK cfg) {s1 : State} (h1 : GeomInv cfg s1) (h
       · intro x hx
         rw [t5] at hx
         exact g2 x hx
-      · intro v' _
-        refine ⟨by rw [t3, hi], freshChunk cfg p g size, ?_, hle⟩
+      · intro v' hv'
+        cases hv'
+        refine ⟨by rw [t3, hi], freshChunk cfg p g size, ?_, hle, p, g, rest, _, hrs, rfl,
+          Lemmas.Size.downAlign_le _ _, hinv, g4, by rw [hi], hch, ht⟩
         have : s3.chunks.map Chunk.shape = s2.chunks.map Chunk.shape := t2
         rw [this, hch, List.map_append]
         rfl
@@ -240,10 +251,20 @@ theorem getLast?_isSome_of_getElem? {α : Type} {l : List α} {i : Nat} {a : α}
   | none => rw [List.getLast?_eq_none_iff] at hl; subst hl; simp at h
   | some b => exact ⟨b, rfl⟩
 
-theorem inAnotherChunk_ok (hc : CfgOK cfg) {s : State} (h : GeomInv cfg s) (hr : RespsOK cfg s) (k : Kind)
+/-- where the block of a successful slow path comes from: the last step is a `tryCur` on a state `sx`
+    whose current chunk is a LATER chunk of `s` (same shapes) or a NEW chunk in the block the base
+    allocator just granted -/
+def SlowFrom (cfg : Cfg) (k : Kind) (L : Layout) (s s' : State) (v : Nat × Nat) : Prop :=
+  ∃ sx, GeomInv cfg sx ∧ sx.minAlign = s.minAlign ∧ tryCurSpec cfg k sx L = some (v, s') ∧
+    ((SameShape s sx ∧ ∃ i j, s.cur = .chunk i ∧ sx.cur = .chunk j ∧ i < j) ∨
+     (∃ p g rest c, s.resps = .granted p g :: rest ∧ c.base = p ∧ c.size ≤ g ∧
+        sx.chunks.map Chunk.shape = s.chunks.map Chunk.shape ++ [Chunk.shape c] ∧ sx.cur = .chunk s.chunks.length))
+
+theorem inAnotherChunk_ok' (hc : CfgOK cfg) {s : State} (h : GeomInv cfg s) (hr : RespsOK cfg s) (k : Kind)
     {L : Layout} {hints : Hints} (hL : L.Valid) (hh : hints.sma = true → L.align ∣ L.size)
     (hk : k = .range → L.align ∣ L.size) :
-    (∀ s' r, inAnotherChunk cfg k s L hints = .ok (s', r) → SlowPost cfg L s s' r) ∧
+    (∀ s' r, inAnotherChunk cfg k s L hints = .ok (s', r) →
+      SlowPost cfg L s s' r ∧ ∀ v, r = .ok v → SlowFrom cfg k L s s' v) ∧
     (BaseOK cfg s L → ∃ s' r, inAnotherChunk cfg k s L hints = .ok (s', r)) := by
   rw [inAnotherChunk_eq]
   cases hcur : s.cur with
@@ -252,7 +273,8 @@ theorem inAnotherChunk_ok (hc : CfgOK cfg) {s : State} (h : GeomInv cfg s) (hr :
     refine ⟨?_, fun _ => ⟨_, _, rfl⟩⟩
     intro s' r he
     cases he
-    exact ⟨h, hr, rfl, fun hx => (by rw [hcur] at hx; cases hx), fun v hv => (by cases hv), Or.inl (SameShape.refl _)⟩
+    exact ⟨⟨h, hr, rfl, fun hx => (by rw [hcur] at hx; cases hx), fun v hv => (by cases hv), Or.inl (SameShape.refl _)⟩,
+      fun v hv => (by cases hv)⟩
   | unallocated =>
     simp only [newChunkForCapacity_eq hc hL]
     cases hs : Spec.calcSize cfg.up cfg.hdr (Nat.max (Spec.hintFromCapacity cfg.up cfg.hdr L) cfg.minChunk) with
@@ -260,7 +282,8 @@ theorem inAnotherChunk_ok (hc : CfgOK cfg) {s : State} (h : GeomInv cfg s) (hr :
       refine ⟨?_, fun _ => ⟨_, _, rfl⟩⟩
       intro s' r he
       cases he
-      exact ⟨h, hr, rfl, fun _ => ⟨hcur, SameShape.refl _⟩, fun v hv => (by cases hv), Or.inl (SameShape.refl _)⟩
+      exact ⟨⟨h, hr, rfl, fun _ => ⟨hcur, SameShape.refl _⟩, fun v hv => (by cases hv), Or.inl (SameShape.refl _)⟩,
+        fun v hv => (by cases hv)⟩
     | some size =>
       have hreq : requestSize cfg s L = some size := by
         unfold requestSize; simp only [hcur]; exact hs
@@ -271,16 +294,20 @@ theorem inAnotherChunk_ok (hc : CfgOK cfg) {s : State} (h : GeomInv cfg s) (hr :
       refine ⟨?_, fun hb => f2 (hb size hreq)⟩
       intro s' r he
       have fp := f1 s' r he
-      refine ⟨fp.inv, fp.resps, fp.minAlign, ?_, fun v hv => ⟨_, (fp.ok v hv).1⟩, ?_⟩
+      refine ⟨⟨fp.inv, fp.resps, fp.minAlign, ?_, fun v hv => ⟨_, (fp.ok v hv).1⟩, ?_⟩, ?_⟩
       · intro hx
         cases r with
         | error e => exact ⟨hcur, (fp.err e rfl).1⟩
         | ok v => rw [(fp.ok v rfl).1] at hx; cases hx
-      cases r with
-      | error e => exact Or.inl (fp.err e rfl).1
-      | ok v =>
-        obtain ⟨e1, c, e2, e3⟩ := fp.ok v rfl
-        exact Or.inr ⟨c, size, hreq, e2, e3, e1⟩
+      · cases r with
+        | error e => exact Or.inl (fp.err e rfl).1
+        | ok v =>
+          obtain ⟨e1, c, e2, e3, _⟩ := fp.ok v rfl
+          exact Or.inr ⟨c, size, hreq, e2, e3, e1⟩
+      · intro v hv
+        obtain ⟨e1, c, e2, e3, p, g, rest, sx, q1, q2, q3, q4, q5, q6, q7, q8⟩ := fp.ok v hv
+        refine ⟨sx, q4, q5, q8, Or.inr ⟨p, g, rest, c, q1, q2, q3, ?_, q6⟩⟩
+        rw [q7, List.map_append]; rfl
   | chunk i =>
     obtain ⟨o, s1, w1, w2, w3, w4, w5, w6, w7, w8⟩ :=
       walkNext_ok hc k hL hh (s.chunks.length - (i+1)) i s h ⟨i, hcur⟩
@@ -289,12 +316,15 @@ theorem inAnotherChunk_ok (hc : CfgOK cfg) {s : State} (h : GeomInv cfg s) (hr :
     cases o with
     | some x =>
       obtain ⟨v, s''⟩ := x
-      have := w8 v s'' rfl
+      obtain ⟨this, sx, j, x1, x2, x3, x4, x5, x6⟩ := w8 v s'' rfl
       subst this
       refine ⟨?_, fun _ => ⟨_, _, rfl⟩⟩
       intro s' r he
       cases he
-      exact ⟨w2, hr1, w4, fun hx => (by obtain ⟨j, hj⟩ := w7; rw [hj] at hx; cases hx), fun _ _ => w7, Or.inl w3⟩
+      refine ⟨⟨w2, hr1, w4, fun hx => (by obtain ⟨j, hj⟩ := w7; rw [hj] at hx; cases hx), fun _ _ => w7, Or.inl w3⟩, ?_⟩
+      intro v' hv'
+      cases hv'
+      exact ⟨sx, x1, x3, x6, Or.inl ⟨x2, i, j, hcur, x4, x5⟩⟩
     | none =>
       obtain ⟨j, hj⟩ := w7
       obtain ⟨cj, hcj, _⟩ := w2.cur j hj
@@ -307,7 +337,8 @@ theorem inAnotherChunk_ok (hc : CfgOK cfg) {s : State} (h : GeomInv cfg s) (hr :
         refine ⟨?_, fun _ => ⟨_, _, rfl⟩⟩
         intro s' r he
         cases he
-        exact ⟨w2, hr1, w4, fun hx => (by rw [hj] at hx; cases hx), fun v hv => (by cases hv), Or.inl w3⟩
+        exact ⟨⟨w2, hr1, w4, fun hx => (by rw [hj] at hx; cases hx), fun v hv => (by cases hv), Or.inl w3⟩,
+          fun v hv => (by cases hv)⟩
       | some size =>
         have hreq : requestSize cfg s L = some size := by
           unfold requestSize; simp only [hcur, hlast', hsz]; exact hs
@@ -318,21 +349,35 @@ theorem inAnotherChunk_ok (hc : CfgOK cfg) {s : State} (h : GeomInv cfg s) (hr :
         refine ⟨?_, ?_⟩
         · intro s' r he
           have fp := f1 s' r he
-          refine ⟨fp.inv, fp.resps, fp.minAlign.trans w4, ?_, fun v hv => ⟨_, (fp.ok v hv).1⟩, ?_⟩
+          refine ⟨⟨fp.inv, fp.resps, fp.minAlign.trans w4, ?_, fun v hv => ⟨_, (fp.ok v hv).1⟩, ?_⟩, ?_⟩
           · intro hx
             cases r with
             | error e => rw [(fp.err e rfl).2, hj] at hx; cases hx
             | ok v => rw [(fp.ok v rfl).1] at hx; cases hx
-          cases r with
-          | error e => exact Or.inl (w3.trans (fp.err e rfl).1)
-          | ok v =>
-            obtain ⟨e1, c, e2, e3⟩ := fp.ok v rfl
-            refine Or.inr ⟨c, size, hreq, ?_, e3, ?_⟩
-            · rw [e2]; congr 1
-            · rw [e1, w3.length]
+          · cases r with
+            | error e => exact Or.inl (w3.trans (fp.err e rfl).1)
+            | ok v =>
+              obtain ⟨e1, c, e2, e3, _⟩ := fp.ok v rfl
+              refine Or.inr ⟨c, size, hreq, ?_, e3, ?_⟩
+              · rw [e2]; congr 1
+              · rw [e1, w3.length]
+          · intro v hv
+            obtain ⟨e1, c, e2, e3, p, g, rest, sx, q1, q2, q3, q4, q5, q6, q7, q8⟩ := fp.ok v hv
+            refine ⟨sx, q4, q5.trans w4, q8, Or.inr ⟨p, g, rest, c, by rw [← w5]; exact q1, q2, q3, ?_, ?_⟩⟩
+            · rw [q7, List.map_append]
+              have : s1.chunks.map Chunk.shape = s.chunks.map Chunk.shape := w3
+              rw [this]; rfl
+            · rw [q6, w3.length]
         · intro hb
           obtain ⟨r0, rest, hrs, hok⟩ := hb size hreq
           exact f2 ⟨r0, rest, by rw [w5]; exact hrs, hok⟩
+
+theorem inAnotherChunk_ok (hc : CfgOK cfg) {s : State} (h : GeomInv cfg s) (hr : RespsOK cfg s) (k : Kind)
+    {L : Layout} {hints : Hints} (hL : L.Valid) (hh : hints.sma = true → L.align ∣ L.size)
+    (hk : k = .range → L.align ∣ L.size) :
+    (∀ s' r, inAnotherChunk cfg k s L hints = .ok (s', r) → SlowPost cfg L s s' r) ∧
+    (BaseOK cfg s L → ∃ s' r, inAnotherChunk cfg k s L hints = .ok (s', r)) :=
+  ⟨fun s' r he => ((inAnotherChunk_ok' hc h hr k hL hh hk).1 s' r he).1, (inAnotherChunk_ok' hc h hr k hL hh hk).2⟩
 
 /-! ## fast path + slow path -/
 
